@@ -198,6 +198,17 @@ def un_cmat(m):
     return a
 
 
+def mmat_lit(m):
+    if m is None:
+        return 'MNone'
+    x = un_cmat(m)
+    if isinstance(x, np.ndarray):
+        return '(MDense ' + cmat_lit(m)[len('(Some '):-1] + ')'
+    coo = x.tocoo()
+    tr = ';'.join(f'({z(r)},{z(c)},{cval(v)})' for r, c, v in zip(coo.row, coo.col, coo.data))
+    return f'(MSp [{tr}] {blit(np.iscomplexobj(coo.data))})'
+
+
 def un_cidx(ix):
     return None if ix is None else np.array(ix['arr'], dtype=int).reshape(ix['shape'])
 
@@ -237,6 +248,8 @@ def op_lit(st):
         return f'(OSet {st["tgt"]} {idx_lit(st["i"])} {idx_lit(st["j"])} {cval(un_scal(st["v"]))})'
     if o == 'contract':
         return f'(OContract {st["a"]} {cmat_lit(st["mat"])} {cidx_lit(st["rows"])} {cidx_lit(st["cols"])})'
+    if o == 'contract_multi':
+        return f'(OContractMulti {st["a"]} [' + ';'.join(mmat_lit(m) for m in st['mats']) + '])'
     raise KeyError(o)
 
 
@@ -347,13 +360,15 @@ def exec_step(st, store, pym):
             if cols is not None:
                 kw['cols'] = cols
             r = D.contract(mat, **kw) if mat is not None or st.get('explicit_none') else D.contract(**kw)
+        elif o == 'contract_multi':
+            r = store[st['a']].contract_multi([un_cmat(m) for m in st['mats']])
         else:
             raise KeyError(o)
     except Exception as e:   # noqa
         return e, slot
     if isinstance(r, DC) and o not in INPLACE:
-        slot = st['dst']
-        while len(store) <= slot:
+        slot = min(st['dst'], len(store))        # binding to a slot beyond the end appends (as set_slot in the model)
+        if slot == len(store):
             store.append(None)
         store[slot] = r
     return r, slot
@@ -559,6 +574,22 @@ def dense_step(st, dstore, store_before, pym):
         if bs is None:
             return np.asarray(vals[0], dtype=res_dtype), None
         return np.array(vals, dtype=res_dtype).reshape(bs), None
+    if o == 'contract_multi':
+        M, (r, c) = dm(st['a'])
+        if min(r, c) < 0:
+            raise Skip('unknown shape')
+        mats = [un_cmat(m) for m in st['mats']]
+        vals, dts = [], [M.dtype]
+        for m in mats:
+            if m is None:
+                vals.append(0.0)
+                continue
+            B = m if isinstance(m, np.ndarray) else m.toarray()
+            dts.append(B.dtype)
+            if B.shape != M.shape:
+                raise Skip('matrix does not conform')
+            vals.append((M * B).sum())
+        return np.array(vals, dtype=np.result_type(*dts)), None
     raise Skip('no dense statement for ' + o)
 
 
@@ -747,6 +778,20 @@ def gen_step(g, store, pool, malformed):
         if malformed and r.random() < 0.3:
             i, j = g.idx(n, ('int', 'slice')), g.idx(m, ('int', 'arr'))
         return {'op': 'set', 'tgt': a, 'i': i, 'j': j, 'v': v}
+    if k == 'contract' and known and r.random() < 0.25:
+        mats = []
+        for _ in range(r.choice([0, 1, 2, 2, 3])):
+            q = r.random()
+            shape = (R_, C_) if not (malformed and r.random() < 0.5) else (R_ + 1, C_ + r.randint(0, 1))
+            if q < 0.15:
+                mats.append(None)
+            elif q < 0.75:
+                x = g.arr(shape, pzero=0.0)
+                x = x * np.array([r.random() < 0.6 for _ in range(x.size)]).reshape(x.shape)   # sparsity pattern
+                mats.append({'arr': A(x), 'sparse': r.choice(['coo', 'coo', 'csr', 'csc'])})
+            else:
+                mats.append({'arr': A(g.arr(shape))})
+        return {'op': 'contract_multi', 'a': a, 'mats': mats}
     if k == 'contract' and known:
         return gen_contract(g, a, R_, C_, malformed)
     if k == 'binscal':
@@ -1069,7 +1114,20 @@ def run(ctx):
         ctx.violation('correspondence', 'DyadCarrier', 'case files compile', 'harness', dict(error=err[-3000:]), theorem='cases_dyad')
     for idx in failing[:20]:
         pr = labels[idx]
-        ctx.violation('correspondence', 'DyadCarrier', 'model == implementation', 'program', pr.case(),
+        # which step differs, and what the model computes there (small second Coq run, only for failing cases)
+        obs = '[' + ';\n    '.join(pr.obs) + ']'
+        vals, _ = vlib.eval_coq(ctx, f'fail_{idx}', HEADER, [f'check_trace [] {obs}'])
+        step, model = None, None
+        if vals:
+            verdicts = vals[0].replace('[', '').replace(']', '').replace(' ', '').split(';')
+            if 'false' in verdicts:
+                step = verdicts.index('false')
+                one = '[' + ';\n    '.join(pr.obs[:step + 1]) + ']'
+                mv, _ = vlib.eval_coq(ctx, f'model_{idx}', HEADER, [f'nth {step} (model_trace [] {one}) (Er OtherE, None)'])
+                model = mv[0][:3000] if mv else None
+        ctx.violation('correspondence', 'DyadCarrier', 'model == implementation',
+                      pr.kinds[step] if step is not None else 'program', pr.case(step),
+                      expected=dict(model=model), got=dict(implementation=pr.obs[step][:3000] if step is not None else None),
                       note='Coq model (Model/Dyad.v) and implementation differ on this program; ' + pr.label)
 
 
